@@ -305,3 +305,6 @@ PROPS["C09"]["rule"] += " ; plus constructor calls (harness/engines/calls.py): f
 
 PROPS["C09"]["level_text"] += (" Constructor calls (Props/C09b.lean on Model/CallAssign, any fields / keywords with distinct names, Managed values): runCall_compose (a run approving F2 after a run "
     "approving F1 gives the keyword list of one run approving F1 u F2), call_order_independent, runCall_commute — true since fix e4b1c97 made insert positions independent of other changes.")
+
+PROPS["C10"]["level_text"] += (" Outside the == path (Props/C10b.lean on Model/Site): coll_update_needs_noncanon, unused_coll_update_needs_noncanon, coll_all_canon_no_update — an element that never needs "
+    "regenerating (how the site engine encodes Is(..) / f-string elements) is never the reason for an update, used with `in` or never used.")
